@@ -15,6 +15,10 @@ def run(ctx, viol, tag):
     cases = json.load(open(out))['cases']
     k = 0
     for i, c in enumerate(cases):
+        if c.get('single_failures'):
+            viol.append({'signature': 'oracle:field-call-fails', 'case': {'spec': c['spec']}, 'observed': {f: c['singles'][f] for f in c['single_failures']},
+                         'what': f'{tag}: layer {c["spec"]}: calling the fields {c["single_failures"]} with their inputs passed by keyword raised '
+                                 f'{[c["singles"][f]["exc"] for f in c["single_failures"]]}'})
         for r in c['requests']:
             k += 1
             exp = {'t': [c['singles'][f]['val'] for f in r['fields']]}
